@@ -184,6 +184,14 @@ def run(ctx: Ctx) -> None:
         rjobs.append({"tdesc": desc_to_tla(case["desc"]), "pdesc": case["desc"], "inputs": case["inputs"],
                       "kinds": dict(case["kinds"], __order__="rev" if k % 2 else "listed"),
                       "storage": storages[k % 3] if k % 7 else "shared_memory_dict"})
+    # a mapped consumer that ALSO takes a whole mapped array through a parameter its MapSpec does not list (scenarios defined
+    # in MC_MapFixed: mappedreducer, fanout), on every storage
+    from . import c06
+    for sn in ("mappedreducer", "fanout", "internalfirst"):
+        sc, _, _ = c06.export(ctx, sn)
+        for k, st in enumerate(storages):
+            rjobs.append({"tdesc": sc["desc"], "inputs": sc["inputs"], "storage": st,
+                          "kinds": {n: ("list" if k % 2 else "ndarray") for n, _ in sc["inputs"]}})
     rtraces = run_jobs(rjobs)
     for t in rtraces:
         ctx.case({"d": t["desc"], "i": t["inputs"], "s": t["storage"]}, nontrivial(t))
